@@ -26,6 +26,7 @@ var (
 	vPipeReqs   []*proto.ReplicationRequest
 	vPipeResp   []byte
 	vPipeGotRsp bool
+	vPipeReps   map[string]*vRep
 )
 
 func vInstallPipelineStandIns() {
@@ -59,6 +60,12 @@ func vInstallPipelineStandIns() {
 	vIntercept(m+"ExpandISR", func(x *metadataAPI, ctx context.Context, req *proto.ExpandISROp) *status.Status {
 		vAssert(vPipeLeader.AddToISR(req.ReplicaToAdd) == nil, "AddToISR succeeds")
 		vCover("expand-by-replicator")
+		// the invariant at the very moment the in-sync set grows (a member of
+		// the in-sync set can be elected from now on): the new member holds,
+		// by its own log, everything the leader has committed
+		if f := vPipeReps[req.ReplicaToAdd]; f != nil {
+			vAssert(vPipeLeader.log.HighWatermark() <= f.p.log.NewestOffset(), "a replica (re)joins the in-sync set only when it holds everything committed")
+		}
 		return nil
 	})
 	vIntercept(m+"ShrinkISR", func(x *metadataAPI, ctx context.Context, req *proto.ShrinkISROp) *status.Status {
@@ -95,6 +102,12 @@ func VerifC02Pipeline() {
 	const epoch = 3
 	a, b, c := vMkPipeReplica("a", true, epoch), vMkPipeReplica("b", false, epoch), vMkPipeReplica("c", false, epoch)
 	vPipeLeader = a.p
+	vPipeReps = map[string]*vRep{"b": b, "c": c}
+	if vParam("isrchanges", 1) == 1 && vChoose(2) == 1 {
+		// c starts outside the in-sync set (as after an earlier shrink)
+		vAssert(a.p.RemoveFromISR("c") == nil, "RemoveFromISR succeeds")
+		vCover("c-starts-out-of-sync")
+	}
 	if vChoose(2) == 1 {
 		// stored messages are 70 bytes (1-byte value) or 100 bytes (31-byte
 		// value), a response starts with 24 bytes: room for two small messages,
